@@ -374,6 +374,50 @@ func runMatrix(c *mon.Case) {
 	}
 }
 
+// runReuse: one model object serves several alignments in a row (what `compute distance` does on a multi
+// alignment input and `build distboot` for every replicate): each matrix must still be the estimator's.
+func runReuse(c *mon.Case) {
+	r := c.R
+	o := ref.NtOpts{Model: models[r.Intn(len(models))]}
+	if r.Chance(0.4) {
+		o.Gamma, o.Alpha = true, r.PickF([]float64{0.5, 1, 2.5})
+	}
+	o.RmGaps = r.Chance(0.3)
+	m, err := mkModel(o)
+	if err != nil {
+		c.Failf("model-construction", "%v", err)
+		return
+	}
+	k := r.Range(2, 4)
+	var all [][]string
+	for a := 0; a < k; a++ {
+		rows, _ := genAlignment(r)
+		all = append(all, rows)
+	}
+	if r.Chance(0.3) {
+		all = append(all, all[0]) // and back to the first alignment
+	}
+	c.Input(map[string]interface{}{"alignments": all, "opts": o})
+	for a, rows := range all {
+		grows := make(gen.Rows, len(rows))
+		for i, s := range rows {
+			grows[i] = gen.Seq{Name: "s" + gen.Itoa(i), Seq: s}
+		}
+		al := h.MkAlign(grows, align.NUCLEOTIDS)
+		mat, err := dna.DistMatrix(al, nil, m, -1, -1, -1, -1, o.Gamma, o.Alpha, r.PickInt([]int{1, 2, 4}))
+		if err != nil {
+			c.Failf(o.Model+":unexpected-error", "DistMatrix on alignment %d of a re-used model: %v", a, err)
+			return
+		}
+		checkMatrix(c, rows, o, mat, nil, fmt.Sprintf("re-used model object, alignment %d of %d", a+1, len(all)))
+		if c.Failed() {
+			return
+		}
+	}
+	c.Count("reuse:" + o.Model)
+	c.NonTrivial(fmt.Sprintf("%v", all), fmt.Sprintf("%+v", o))
+}
+
 // fixed witnesses of the defects found on the pinned tree
 func runWitness(c *mon.Case) {
 	type w struct {
@@ -414,12 +458,15 @@ func runWitness(c *mon.Case) {
 }
 
 func main() {
-	mon.SetNote("rule", "case = random nucleotide alignment (2..7 rows x 1..120 columns; residue mixes ACGT / +N / +all IUPAC / mixed case / + * X . ; rows are mutated copies at rates 0..1 so that identical, close, near-saturated, saturated and no-comparable-site pairs occur; leading/trailing/internal gap runs) x random option set (7 models x gamma/alpha x rm-gaps x gap-mut 0/1/2 x rm-ambiguous x weights nil/unit/random x optional sequence ranges x cpus), checked entry by entry against an independent implementation of the published estimators plus symmetry, zero diagonal, d=0 without counted difference, d>=p and the undefined-pair rule; the direct Distance call is checked on one pair. Non-trivial = rows differ and (a non ACGT symbol or a non default option); distinct = (rows, options).")
+	mon.SetNote("rule", "case = random nucleotide alignment (2..7 rows x 1..120 columns; residue mixes ACGT / +N / +all IUPAC / mixed case / + * X . ; rows are mutated copies at rates 0..1 so that identical, close, near-saturated, saturated and no-comparable-site pairs occur; leading/trailing/internal gap runs) x random option set (7 models x gamma/alpha x rm-gaps x gap-mut 0/1/2 x rm-ambiguous x weights nil/unit/random x optional sequence ranges x cpus), checked entry by entry against an independent implementation of the published estimators plus symmetry, zero diagonal, d=0 without counted difference, d>=p and the undefined-pair rule; the direct Distance call is checked on one pair; `reuse`: one model object computes 2..5 alignments of different composition in a row, each matrix checked the same way. Non-trivial = rows differ and (a non ACGT symbol or a non default option); distinct = (rows, options).")
 	mon.SetNote("assumptions", "estimator formulas typed from the literature (JC69, K80, F81, F84 as in PHYLIP, TN93 and their gamma versions) in lib/ref/ntdist.go;; open corners accepted in every reading: rm-gaps dropping columns with '-' only or with any non A/C/G/T symbol; base frequencies normalised over nucleotides only or over all characters of the selected columns (one reading must explain the whole matrix);; relative tolerance 1e-9;; '?' and U are rejected by the models with an explicit error and are not generated")
 	for _, m := range models {
 		mon.Floor("model:"+m, 100)
 	}
 	mon.Floor("ranges:ranges", 100)
+	for _, m := range models {
+		mon.Floor("reuse:"+m, 100)
+	}
 	mon.Floor("gamma", 100)
 	mon.Floor("rmgaps", 100)
 	mon.Floor("weights", 100)
@@ -428,5 +475,6 @@ func main() {
 	mon.Main("C07", []mon.Sub{
 		{Name: "witness", Quick: 13, Thorough: 13, Run: runWitness},
 		{Name: "matrix", Quick: 300000, Thorough: 6000000, Run: runMatrix},
+		{Name: "reuse", Quick: 60000, Thorough: 1200000, Run: runReuse},
 	})
 }
